@@ -401,10 +401,45 @@ def check(pid, tier):
 
 
 # -------------------------------------------------------- e2e parts of others ----
+def c04_tcp_edge(run, pid):
+    """TCP replies whose full size walks across 65535/65536 octets, the largest message a two-octet frame length can
+    announce.  The upstream compresses like erbium does, so sizes carry over; the offset between the script's size
+    parameter and the size of erbium's reply is measured with one probe query first."""
+    ids = Ids(run.rng)
+    def case(sizes):
+        scripts, queries = {}, []
+        for k, size in enumerate(sizes, 1):
+            name = ["e%03d" % k, "edge", "example"]
+            scripts[tok(name)] = {"kind": "ok", "size": size, "ttl": 0, "compress": True}
+            queries.append(q(ids, k, name, proto="tcp", adv=4096, upkind="ok", listener="v4", wait_ms=8000))
+        return {"routes": [{"suffixes": [""], "kind": "forward", "up": 3}], "acls": None, "scripts": scripts, "queries": queries, "meta": {"kind": "c04-tcp-edge"}}
+    # the size parameter counts rdata octets; every 200 of them add a record (12 more octets): close in on the edge
+    size, hit = 61000, None
+    for _ in range(4):
+        lines, _ = run_rig(run, pid, [case([size])], "c04p")
+        rs = [json.loads(l) for l in lines if '"ev":"crecv"' in l]
+        if not rs or rs[0]["tc"] == 1:
+            run.notes.append("TCP size probe (size %d) unanswered or truncated: the 65535/65536 edge was not walked" % size)
+            return {"events": 0}
+        d = 65530 - rs[0]["len"]
+        if abs(d) <= 3:
+            hit = (size, rs[0]["len"])
+            break
+        size += int(d / 1.06) if abs(d) > 30 else d
+    if hit is None:
+        run.notes.append("could not close in on a 65530-octet TCP reply: the 65535/65536 edge was not walked")
+        return {"events": 0}
+    sizes = [hit[0] + (65536 - hit[1]) + d for d in range(-9, 5)]      # replies of ~65527..65540 octets if nothing were cut
+    lines, total = run_rig(run, pid, [case(sizes)], "c04e")
+    got = sorted((json.loads(l)["len"], json.loads(l)["tc"]) for l in lines if '"ev":"crecv"' in l)
+    return {"events": len(lines), "reply_sizes_and_tc": got, "counters": total}
+
+
 def c04_e2e(run, pid):
     cases = c04_cases(run.rng, 4 if not run.thorough else 40)
     lines, total = run_rig(run, pid, cases, "c04")
-    return {"events": len(lines), "nontrivial": total.get("replies", 0), "counters": total}
+    edge = c04_tcp_edge(run, pid)
+    return {"events": len(lines) + edge["events"], "nontrivial": total.get("replies", 0), "counters": total, "tcp_edge": edge}
 
 
 def c08_e2e(run, pid, _fn_cases):
